@@ -253,7 +253,7 @@ static void do_decode(struct enc *e, struct arr *a, int force, uint64_t flen_arg
         ptrs[i] = pl[i].ptr; placed_protect(&pl[i], 1);
     }
     l0 = verif_live;
-    ev_begin("Dec"); ev_int("d", e->desc); ev_cfg(e->be, e->k, e->m, e->hd, e->ct); ev_int("len", (long long)e->len);
+    ev_begin("Dec"); ev_int("d", e->desc); ev_cfg(e->be, e->k, e->m, e->hd, e->ct); ev_int("len", (long long)e->len); ev_int("seed", (long long)(e->seed & 0x7fffffff));
     ev_arr("idx", a->idx, a->n); ev_arr("off", a->off, a->n); ev_int("force", force);
     if (g_dmglog) ev_arr("dmg", g_dmglog, a->n);
     else if (dmgmask) { int dm[2 * MAXN]; for (i = 0; i < a->n; i++) dm[i] = dmgmask[i]; ev_arr("dmg", dm, a->n); }
@@ -290,7 +290,7 @@ static void do_recon(struct enc *e, struct arr *a, int dest, uint64_t flen_arg)
         ptrs[i] = pl[i].ptr; placed_protect(&pl[i], 1);
     }
     l0 = verif_live;
-    ev_begin("Rec"); ev_int("d", e->desc); ev_cfg(e->be, e->k, e->m, e->hd, e->ct); ev_int("len", (long long)e->len);
+    ev_begin("Rec"); ev_int("d", e->desc); ev_cfg(e->be, e->k, e->m, e->hd, e->ct); ev_int("len", (long long)e->len); ev_int("seed", (long long)(e->seed & 0x7fffffff));
     ev_arr("idx", a->idx, a->n); ev_arr("off", a->off, a->n); ev_int("dest", dest);
     ev_int("flen", (long long)flen_arg); ev_int("l0", l0);
     ev_call();
@@ -496,6 +496,22 @@ static void one_case(int isdec, char **argv)
     free(e.data);
 }
 
+/* one_need be k m hd w nR R... nX X... : a single fragments_needed case (replay) */
+static void one_need(char **argv)
+{
+    struct enc e; int L[16], nR, nX, i;
+    memset(&e, 0, sizeof e);
+    e.be = atoi(argv[1]); e.k = atoi(argv[2]); e.m = atoi(argv[3]); e.hd = atoi(argv[4]); e.ct = 1;
+    int w = atoi(argv[5]); nR = atoi(argv[6]);
+    for (i = 0; i < nR && i < 8; i++) L[i] = atoi(argv[7 + i]);
+    nX = atoi(argv[7 + nR]);
+    for (i = 0; i < nX && nR + i < 16; i++) L[nR + i] = atoi(argv[8 + nR + i]);
+    e.desc = do_create(e.be, e.k, e.m, e.hd, w, e.ct, 0);
+    if (e.desc <= 0) return;
+    need_case(&e, L, nR + nX, nR);
+    do_destroy(e.desc);
+}
+
 static int tok_desc(const char *t);
 #include "ecdrive_wire.inc"
 #include "ecdrive_hist.inc"
@@ -535,6 +551,7 @@ static int run_script(const char *path)
         else if (!strcmp(argv[0], "oob_dest")) oob_dest(argv);
         else if (!strcmp(argv[0], "one_dec")) one_case(1, argv);
         else if (!strcmp(argv[0], "one_rec")) one_case(0, argv);
+        else if (!strcmp(argv[0], "one_need")) one_need(argv);
         else if (wire_cmd(argc, argv)) ;
         else if (hist_cmd(argc, argv)) ;
         else { fprintf(stderr, "ecdrive: unknown command %s\n", argv[0]); return 2; }
